@@ -77,12 +77,13 @@ pub fn check_texts(texts: &[String]) -> Check {
             let shared = {
                 let mut rd = BufReader::new(text.as_bytes());
                 let pf = ParsedFormula::new_with_env(Rc::clone(&env), &mut rd, Some(ordering(&pool)))
-                    .map_err(|e| v(format!("formula {} rejected: {}", i, e)))?;
+                    .map_err(|e| crate::front::rejection(text, &format!("formula {}", i), &e.to_string(), &cj))?;
                 pf.eval()
             };
             let fresh = {
                 let mut rd = BufReader::new(text.as_bytes());
-                let pf = ParsedFormula::new(&mut rd, Some(ordering(&pool))).map_err(|e| v(format!("formula {} rejected: {}", i, e)))?;
+                let pf = ParsedFormula::new(&mut rd, Some(ordering(&pool)))
+                    .map_err(|e| crate::front::rejection(text, &format!("formula {}", i), &e.to_string(), &cj))?;
                 pf.eval()
             };
             rsbdd::bdd::verif_hooks::set_fp_iteration_limit(None);
